@@ -148,22 +148,25 @@ theorem doRename_ref {s : CFS} (hinv : Inv max hash s) (old new : String) :
             intro f hf
             obtain ⟨e, he1, he2⟩ := child_mem hchild
             exact hinv.ents e he1 f (by rw [he2, hf])
-          have hfin : Ref3 max hash
+          have hfin : ∀ (g : List ((Nat × String) × Node) → List ((Nat × String) × Node)),
+              (∀ E, EntsOK E s.files.length → EntsOK (g E) s.files.length) →
+              Ref3 max hash
               ({ (setNameParent { s with ents := setEnt s.ents nd (if (newname0 == "") = true then oldname else newname0) n }
                     n (if (newname0 == "") = true then oldname else newname0) nd) with
-                  ents := eraseEnt (setNameParent { s with ents := setEnt s.ents nd (if (newname0 == "") = true then oldname else newname0) n }
-                    n (if (newname0 == "") = true then oldname else newname0) nd).ents od oldname }, Res.err Err.ok)
+                  ents := g (setNameParent { s with ents := setEnt s.ents nd (if (newname0 == "") = true then oldname else newname0) n }
+                    n (if (newname0 == "") = true then oldname else newname0) nd).ents }, Res.err Err.ok)
               ({ (setNameParent { (absFS s) with ents := setEnt s.ents nd (if (newname0 == "") = true then oldname else newname0) n }
                     n (if (newname0 == "") = true then oldname else newname0) nd) with
-                  ents := eraseEnt (setNameParent { (absFS s) with ents := setEnt s.ents nd (if (newname0 == "") = true then oldname else newname0) n }
-                    n (if (newname0 == "") = true then oldname else newname0) nd).ents od oldname }, Res.err Err.ok) := by
+                  ents := g (setNameParent { (absFS s) with ents := setEnt s.ents nd (if (newname0 == "") = true then oldname else newname0) n }
+                    n (if (newname0 == "") = true then oldname else newname0) nd).ents }, Res.err Err.ok) := by
+            intro g hg
             obtain ⟨c1, c2, c3, c4⟩ := setNameParent_contents
               { s with ents := setEnt s.ents nd (if (newname0 == "") = true then oldname else newname0) n }
               n (if (newname0 == "") = true then oldname else newname0) nd
             refine ⟨rfl, ?_, hinv.same_contents c1 c2 c3 (by
-              show EntsOK (eraseEnt _ od oldname) _
+              show EntsOK (g _) _
               rw [c4]
-              exact (hinv.ents.set nd _ n hnvalid).erase od oldname)⟩
+              exact hg _ (hinv.ents.set nd _ n hnvalid))⟩
             have := setNameParent_abs
               { s with ents := setEnt s.ents nd (if (newname0 == "") = true then oldname else newname0) n }
               n (if (newname0 == "") = true then oldname else newname0) nd
@@ -172,11 +175,18 @@ theorem doRename_ref {s : CFS} (hinv : Inv max hash s) (old new : String) :
             rw [e] at this
             rw [← this]
             rfl
+          have hg : ∀ E, EntsOK E s.files.length →
+              EntsOK (if od = nd ∧ oldname = (if (newname0 == "") = true then oldname else newname0) then E
+                else eraseEnt E od oldname) s.files.length := by
+            intro E hE
+            by_cases hc : od = nd ∧ oldname = (if (newname0 == "") = true then oldname else newname0)
+            · rw [if_pos hc]; exact hE
+            · rw [if_neg hc]; exact hE.erase od oldname
           cases child s.ents nd (if (newname0 == "") = true then oldname else newname0) with
-          | none => exact hfin
+          | none => exact hfin _ hg
           | some x =>
             cases x with
             | dir k => exact Ref3.same hinv _
-            | file f => exact hfin
+            | file f => exact hfin _ hg
 
 end ArvVerif.C08
